@@ -3,7 +3,7 @@
    Clean = names that need no escaping: the TypeScript name of every definition and parameter is declarable,
    property names / variant names / tag keys (after renaming) contain no quote, backslash or line break and
    property names are not empty; `export_to` paths likewise; no `type = ".."` override (user text); `flatten` of structs that have
-   named fields of their own and flatten nothing themselves (the common use).  Everything else
+   named fields of their own and flatten nothing themselves, and of enums into hosts with a field of their own.  Everything else
    is free: shapes, generics, defaults, `as`, `inline`, `optional`, all four enum representations, `skip`,
    `untagged` variants, documentation of any content.  Definitions only. *)
 From TsRs Require Import Base.Str Base.Outcome Model.Case Model.TsAst Model.Rust Model.Gen Spec.TsGrammar Spec.TsSyn.
@@ -23,6 +23,8 @@ Definition is_sobj (t : tsty) : bool :=
   | _ => false
   end.
 
+Definition is_paren (t : tsty) : bool := match t with TParen _ => true | _ => false end.
+
 (* syn_ok, plus the merge marker around an object literal (what named.rs builds when nothing is flattened), around the
    operands `own object & flattened struct & ..`, or around a lone flattened struct *)
 Fixpoint gshape (t : tsty) : bool :=
@@ -39,7 +41,7 @@ Fixpoint gshape (t : tsty) : bool :=
   | TMerged u =>
       match u with
       | TObj _ _ => gshape u
-      | TInter l => negb (is_nil l) && forallb (fun x => is_sobj x && gshape x) l   (* own object and flattened struct objects *)
+      | TInter l => negb (is_nil l) && forallb (fun x => (is_sobj x || is_paren x) && gshape x) l   (* own object, flattened struct objects, flattened enums *)
       | TUnwrap x => is_sobj x && gshape x                                          (* a lone flattened struct *)
       | _ => false
       end
@@ -71,6 +73,18 @@ Definition flat_simple (d : typedef) : bool :=
       (match c_tag a with Some _ => true | None => false end || existsb (fun f => negb (f_skip f)) fs)
   | _ => false
   end.
+(* an enum that can be flattened into a host: at least one live variant, no `as` / `type` on the container *)
+Definition flat_enum (d : typedef) : bool :=
+  match d with
+  | DEnum a _ _ vs => no_text (c_type a) && match c_as a with None => true | Some _ => false end && existsb (fun v => negb (v_skip v)) vs
+  | _ => false
+  end.
+Fixpoint flat_target_e (t : rty) : bool :=
+  match t with
+  | RWrap u => flat_target_e u
+  | RNamed id args => match lookup R id with Some d => flat_enum d && forallb rty_clean args | None => false end
+  | _ => false
+  end.
 Fixpoint flat_target (t : rty) : bool :=
   match t with
   | RWrap u => flat_target u
@@ -81,14 +95,18 @@ Definition key_okb (k : str) : bool := negb (is_nil k) && cleanb k.
 
 Definition field_cleanb (ra : option rule) (f : field) : bool :=
   f_skip f || (no_text (f_type f) &&
-               if f_flatten f then flat_target (f_ty f) else rty_clean (f_ty f) && key_okb (field_key ra f)).
+               if f_flatten f then flat_target (f_ty f) || flat_target_e (f_ty f) else rty_clean (f_ty f) && key_okb (field_key ra f)).
 Definition tfield_cleanb (f : field) : bool := f_skip f || (no_text (f_type f) && rty_clean (f_ty f)).
 
 Definition shape_cleanb (ra : option rule) (s : shape) : bool :=
   match s with
   | SUnit => true
   | STuple fs => forallb tfield_cleanb fs
-  | SNamed fs => forallb (field_cleanb ra) fs
+  | SNamed fs =>
+      (* a host that flattens an enum has a property of its own (a lone flattened enum has its parentheses stripped textually) *)
+      forallb (field_cleanb ra) fs &&
+      (negb (existsb (fun f => negb (f_skip f) && f_flatten f && flat_target_e (f_ty f)) fs) ||
+       existsb (fun f => negb (f_skip f) && negb (f_flatten f)) fs)
   end.
 
 Definition variant_cleanb (a : cattrs) (raf : option rule) (v : variant) : bool :=
